@@ -131,9 +131,15 @@ def _ge1(expr: ast.AST, fn: FunctionInfo, loop: ast.While, ctx: Ctx) -> str | No
             m = re.fullmatch(r"len\((\w+)\) - (\w+)", unparse(other[0]))
             if m and g in (f"{m.group(1)}[{m.group(2)}:]", f"{m.group(2)} < len({m.group(1)})"):
                 return f"min({cs[0]}, remaining) with remaining >= 1 under the guard"
+    mname = None
     if isinstance(expr, ast.Call) and call_name(expr) == "len" and isinstance(expr.args[0], ast.Call) and (call_name(expr.args[0]) or "").endswith(".group"):
         # len(m.group()) of a regex that cannot match empty
         mname = (call_name(expr.args[0]) or "").split(".")[0]
+    if isinstance(expr, ast.BinOp) and isinstance(expr.op, ast.Sub) and isinstance(expr.left, ast.Call) and isinstance(expr.right, ast.Call) \
+            and (call_name(expr.left) or "").endswith(".end") and (call_name(expr.right) or "").endswith(".start") \
+            and (call_name(expr.left) or "").split(".")[0] == (call_name(expr.right) or "").split(".")[0] and not expr.left.args and not expr.right.args:
+        mname = (call_name(expr.left) or "").split(".")[0]
+    if mname is not None:
         for n in walk_no_nested(fn.node):
             if isinstance(n, ast.Assign) and unparse(n.targets[0]) == mname and isinstance(n.value, ast.Call) and (call_name(n.value) or "").endswith(".match"):
                 rx = (call_name(n.value) or "").rsplit(".", 1)[0]
@@ -216,6 +222,9 @@ def variant_sets(ctx: Ctx, fn: FunctionInfo, g: CFG, loop: ast.While, consuming:
                             if lab == "F":
                                 E.append((nid, m, lab)); why.append("cursor compared with its snapshot; no progress raises")
         st = node.ast
+        if isinstance(st, ast.Assign) and len(st.targets) == 1 and isinstance(st.targets[0], ast.Name) and unparse(st.value) == f"{st.targets[0].id}.parent" \
+                and st.targets[0].id in {x.id for x in ast.walk(loop.test) if isinstance(x, ast.Name)}:
+            V.append(nid); why.append(f"{st.targets[0].id} = {st.targets[0].id}.parent (parent chains are finite: parents are fixed at construction, R4)")
         if isinstance(st, ast.AugAssign) and isinstance(st.op, ast.Add):
             tgt = unparse(st.target)
             if kind == "scanner" and tgt == f"{recv}.pos" and (const_int(st.value) or 0) >= 1:
@@ -256,7 +265,10 @@ def r1_progress(ctx: Ctx) -> None:
             starts = [m for m, lab in g.succ[head] if lab == "T" and (head, m, lab) not in E]
             if isinstance(lp.test, ast.Constant) and lp.test.value:
                 starts = [m for m, lab in g.succ[head]]
-            reach = g.reachable(starts, blocked=V, blocked_edges=E, labels_excluded=["exc"])
+            # only trips round *this* loop count: stay inside its body (an enclosing loop's next iteration is that loop's business)
+            inside = {id(x) for st_ in lp.body for x in ast.walk(st_)}
+            outside = [nid for nid, n in g.nodes.items() if nid != head and (n.ast is None or id(n.ast) not in inside)]
+            reach = g.reachable(starts, blocked=list(V) + outside, blocked_edges=E, labels_excluded=["exc"])
             ok = head not in reach
             ctx.check(ok, construct + ":progress",
                       ("every trip round the loop passes a variant step: " + ", ".join(sorted(set(why)))[:160]) if ok else
@@ -337,8 +349,17 @@ def r3_run_sentinels(ctx: Ctx) -> None:
     ok = len(loops) == 1 and unparse(loops[0].test) == f"self.accept({ar.params()[1]}, {ar.params()[2]})"
     ctx.check(ok, "Scanner.accept_run:shape", "repeats accept(candidates, negate) until it fails")
     ac = ctx.repo.func("a816.parse.scanner", "Scanner.accept")
-    adv = [s for s in walk_no_nested(ac.node) if isinstance(s, ast.If) and "result" in unparse(s.test) and any(call_name(c) == "self.next" for c in calls_in(s))]
-    ctx.check(len(adv) == 1, "Scanner.accept:consumes-when-true", "a successful accept consumes one character")
+    gac = CFG(ac.node)
+    nxt = [gac.node_containing(c) for c in calls_in(ac.node) if call_name(c) == "self.next"]
+    rets = [r for r in walk_no_nested(ac.node) if isinstance(r, ast.Return) and r.value is not None]
+    ok = False
+    if len(nxt) == 1 and len(rets) == 1:
+        from ..match import canon
+        rv = canon(ac.node, rets[0].value)
+        conds = gac.path_conditions(nxt[0], ac.node)
+        # next() runs exactly when the returned value is true
+        ok = any(t in (rv, f"{rv} is True", f"({rv}) is True") and pol for t, pol in conds)
+    ctx.check(ok, "Scanner.accept:consumes-when-true", "a successful accept consumes one character: next() is called exactly when the returned value is true")
     for fn in ctx.repo.all_functions():
         if not in_scope(fn):
             continue
